@@ -224,14 +224,38 @@ def StageReference(dataReference,  # type: experiment.model.graph.DataReference
                 #Check the contents will all be extract under location
                 #Add / to dest to avoid commonprefix issue where /usr/var matches /usr/var2
                 #(due to charactwise matching performed)
-                target = os.path.join(os.path.realpath(dest), '')
+                real_dest = os.path.realpath(dest)
+                target = os.path.join(real_dest, '')
+
+                def inside(path):
+                    return path == real_dest or os.path.commonprefix([target, path]) == target
+
                 for f in tar.getmembers():
-                    newPath = os.path.join(location.path, f.name)
-                    #if target includes / then commonprefix will include it
-                    if os.path.commonprefix([target, newPath]) != target:
+                    # normalise so that members like ../x or a/../../x are detected
+                    newPath = os.path.normpath(os.path.join(real_dest, f.name))
+                    if not inside(newPath):
                         raise tarfile.ReadError('Archive contains files that would be extracted outside of destination')
 
-                tar.extractall(dest)
+                def checked_members():
+                    # extractall() consumes this lazily: each member is checked against what is on disk right
+                    # before it is extracted, i.e. including the links that earlier members (or earlier
+                    # references) have created, so that nothing is written through a link that leaves dest
+                    for f in tar.getmembers():
+                        parent = os.path.realpath(os.path.join(real_dest, os.path.dirname(f.name)))
+                        final = os.path.join(parent, os.path.basename(f.name))
+                        ok = inside(parent) and inside(os.path.normpath(final))
+                        if ok and os.path.islink(final) and not f.issym():
+                            ok = inside(os.path.realpath(final))
+                        if ok and f.issym():
+                            ok = inside(os.path.realpath(os.path.join(parent, f.linkname)))
+                        if ok and f.islnk():
+                            ok = inside(os.path.realpath(os.path.join(real_dest, f.linkname)))
+                        if not ok:
+                            raise tarfile.ReadError(
+                                'Archive contains links that would lead outside of destination (%s)' % f.name)
+                        yield f
+
+                tar.extractall(dest, members=checked_members())
                 tar.close()
     except (shutil.Error, tarfile.ReadError, OSError) as stageError:
         raise experiment.model.errors.DataReferenceCouldNotStageError(dataReference, stageError)
